@@ -15,7 +15,7 @@ import (
 
 func TestMain(m *testing.M) { stats.Main(m, "C06") }
 
-const ruleEnum = "all call sequences of length 1..depth over a 26-symbol alphabet {RegisterNode f,g (formatters), s (sink); RegisterPipeline 2 ids x 2 types x lists [f s],[g s],[f f s]; RemovePipeline x4; RemovePipelineAndNodes x4; RemoveNode x3} (exhaustive, depth 6-7 on the 12-symbol one-type sub-alphabet); oracle = reference in-use model: every call's result class, Close counts per call, and in the final state the RemoveNode class of every id on a replayed copy plus delivery of a probe Send; non-trivial = the sequence contains a removal after an overwrite, RemovePipeline, shared node or duplicate id"
+const ruleEnum = "all call sequences of length 1..depth (extensions of a sequence ending in a failed call are pruned: that call was just verified to be a no-op) over a 26-symbol alphabet {RegisterNode f,g (formatters), s (sink); RegisterPipeline 2 ids x 2 types x lists [f s],[g s],[f f s]; RemovePipeline x4; RemovePipelineAndNodes x4; RemoveNode x3} (exhaustive, depth 6-7 on the 12-symbol one-type sub-alphabet); oracle = reference in-use model: every call's result class, Close counts per call, and in the final state the RemoveNode class of every id on a replayed copy plus delivery of a probe Send; non-trivial = the sequence contains a removal after an overwrite, RemovePipeline, shared node or duplicate id"
 const ruleRandom = "rapid histories up to 60 calls over 2 types, 3 pipeline ids, 4 node ids (+1 formatter-filter), overwrite, duplicate ids, failing Close; same oracle after every step; distinct = history descriptor"
 
 const (
@@ -125,17 +125,23 @@ func TestC06Exhaustive(t *testing.T) {
 	sec.Set("depth_one_type_15_symbols", runs[1].depth)
 	for _, r := range runs {
 		a := alphabet(r.types)
-		ok := enum.Sequences(a, r.depth, shard, n, func(ops []model.Op) bool {
+		ok := enum.DFS(a, r.depth, shard, n, func(ops []model.Op) (bool, bool) {
 			msg, c := runSeq(ops, r.types, []string{"f", "g", "s"}, false)
 			if msg != "" {
 				cp := append([]model.Op(nil), ops...)
 				b, _ := json.Marshal(cp)
 				stats.Violation("TestC06Exhaustive", map[string]interface{}{"ops": json.RawMessage(b), "types": r.types, "history": model.Describe(cp), "message": msg})
 				t.Errorf("VIOLATION C06: %s\nhistory: %s", msg, model.Describe(cp))
-				return false
+				return false, false
 			}
 			sec.CaseEnum(nontrivial(c), func() string { return model.Describe(ops) }, classes(c)...)
-			return true
+			// a sequence whose last call failed is not extended: the call was just verified to be a
+			// no-op, so every extension is state-equivalent to a shorter enumerated sequence
+			lastFailed := c.LastFailed
+			if lastFailed {
+				sec.Class("pruned_after_failed_call")
+			}
+			return !lastFailed, true
 		})
 		if !ok {
 			sec.NotExhaustive()
